@@ -19,7 +19,7 @@ static const BoolOpt OPTS[13] =
 };
 static unsigned g_defaultMask = 0;
 
-struct Cfg3 { unsigned mask; int simplifier; int scaler; int syncmode; };      // mask bit k = value of OPTS[k]
+struct Cfg3 { unsigned mask; int simplifier; int scaler; int syncmode; int resolves = 0; };      // mask bit k = value of OPTS[k]; resolves = further optimize() calls on the same object
 static std::string cfg_str(const Cfg3& c)
 {
    std::string s;
@@ -27,9 +27,10 @@ static std::string cfg_str(const Cfg3& c)
    if(c.simplifier != 1) s += std::string(s.empty() ? "" : ",") + "simplifier=" + std::to_string(c.simplifier);
    if(c.scaler != 2) s += std::string(s.empty() ? "" : ",") + "scaler=" + std::to_string(c.scaler);
    if(c.syncmode != 1) s += std::string(s.empty() ? "" : ",") + "syncmode=" + std::to_string(c.syncmode);
+   if(c.resolves) s += std::string(s.empty() ? "" : ",") + "optimize-again=" + std::to_string(c.resolves);
    return s.empty() ? "default" : s;
 }
-static std::string cfg_code(const Cfg3& c) { return std::to_string(c.mask) + "," + std::to_string(c.simplifier) + "," + std::to_string(c.scaler) + "," + std::to_string(c.syncmode); }
+static std::string cfg_code(const Cfg3& c) { return std::to_string(c.mask) + "," + std::to_string(c.simplifier) + "," + std::to_string(c.scaler) + "," + std::to_string(c.syncmode) + "," + std::to_string(c.resolves); }
 
 // rational LP families: index -> XLP ------------------------------------------------------------------
 struct RFamily
@@ -128,7 +129,8 @@ static void load_rational(SoPlex& spx, const XLP& x)
 
 static std::string qvec(const std::vector<Q>& v) { std::string s = "["; for(size_t i = 0; i < v.size(); ++i) s += (i ? "," : "") + v[i].get_str(); return s + "]"; }
 
-// one exact solve + exact verdicts; returns rule ("" if ok)
+static std::string judge_one(SoPlex& spx, const XLP& x, const Classification& cl, int st, bool mustDecide, std::string& why, Ctx* c);
+// one exact solve (+ cf.resolves further optimize() calls on the same object) + exact verdicts; returns rule ("" if ok)
 static std::string solve_and_judge(XLP x, const Classification& cl, const Cfg3& cf, std::string& why, Ctx* c, int* statusOut)
 {
    x.offset = qq(9, 4);
@@ -150,17 +152,52 @@ static std::string solve_and_judge(XLP x, const Classification& cl, const Cfg3& 
    spx.setIntParam(SoPlex::ITERLIMIT, 20000);
    load_rational(spx, x);
    if(cf.syncmode == SoPlex::SYNCMODE_MANUAL) spx.syncLPReal();   // manual mode: the user carries the rational LP over to the real LP
-   int st;
-   try
+   int st = 0;
+   int n = x.n, m = x.m;
+   std::string rule;
+   for(int round = 0; round <= cf.resolves && rule.empty(); ++round)
    {
-      st = (int)spx.optimize();
-   }
-   catch(const SPxException& e)
-   {
-      why = e.what();
-      return "exception";
+      try
+      {
+         st = (int)spx.optimize();
+      }
+      catch(const SPxException& e)
+      {
+         why = e.what();
+         return "exception";
+      }
+      if(round > 0 && c) c->count("repeated_optimize_calls");
+      rule = judge_one(spx, x, cl, st, mustDecide, why, c);
+      // the stored rational LP is the LP that was entered, also after the solve (nothing is rounded or left transformed)
+      if(rule.empty())
+      {
+         const SPxLPRational& L = *spx._rationalLP;
+         std::string diff;
+         if(L.nCols() != n || L.nRows() != m) diff = "dimensions " + std::to_string(L.nRows()) + "x" + std::to_string(L.nCols());
+         else if((L.spxSense() == SPxLPRational::MAXIMIZE) != x.maximize) diff = "objective sense";
+         auto eq = [&](const Rational& r, const Ext& e) { return e.inf > 0 ? r >= spx._rationalPosInfty : e.inf < 0 ? r <= spx._rationalNegInfty : from_spx(r) == e.v; };
+         for(int j = 0; diff.empty() && j < n; ++j)
+         {
+            if(!eq(L.lower(j), x.lo[j])) diff = "lower(" + std::to_string(j) + ")=" + L.lower(j).str();
+            else if(!eq(L.upper(j), x.up[j])) diff = "upper(" + std::to_string(j) + ")=" + L.upper(j).str();
+            else if(from_spx(L.obj(j)) != x.c[j]) diff = "obj(" + std::to_string(j) + ")=" + L.obj(j).str();
+         }
+         for(int i = 0; diff.empty() && i < m; ++i)
+         {
+            if(!eq(L.lhs(i), x.lhs[i])) diff = "lhs(" + std::to_string(i) + ")=" + L.lhs(i).str();
+            else if(!eq(L.rhs(i), x.rhs[i])) diff = "rhs(" + std::to_string(i) + ")=" + L.rhs(i).str();
+            for(int j = 0; diff.empty() && j < n; ++j) if(from_spx(L.rowVector(i)[j]) != x.A[i][j]) diff = "A(" + std::to_string(i) + "," + std::to_string(j) + ")=" + L.rowVector(i)[j].str();
+         }
+         bool same = diff.empty();
+         if(!same) { why = "the stored rational LP differs from the entered LP after optimize() number " + std::to_string(round + 1) + ": " + diff; rule = "rational-lp-changed-by-solve"; }
+      }
    }
    if(statusOut) *statusOut = st;
+   return rule;
+}
+
+static std::string judge_one(SoPlex& spx, const XLP& x, const Classification& cl, int st, bool mustDecide, std::string& why, Ctx* c)
+{
    if(c) { c->count("exact_solves"); c->count("status." + std::to_string(st)); c->count("refinements", spx.numRefinements()); if(spx.numPrecisionBoosts() > 0) c->count("solves_with_precision_boosts"); }
    int n = x.n, m = x.m;
    // true status
@@ -269,9 +306,11 @@ static Cfg3 minimise(const XLP& x, const Classification& cl, Cfg3 cf, const std:
    while(changed)
    {
       changed = false;
-      for(int k = 0; k < 16; ++k)
+      for(int k = 0; k < 17; ++k)
       {
          Cfg3 t = cf;
+         if(k == 16) { if(cf.resolves == 0) continue; t.resolves = cf.resolves - 1; }
+         else
          if(k < 13) { if(((cf.mask >> k) & 1) == ((g_defaultMask >> k) & 1)) continue; t.mask ^= (1u << k); }
          else if(k == 13) { if(cf.simplifier == 1) continue; t.simplifier = 1; }
          else if(k == 14) { if(cf.scaler == 2) continue; t.scaler = 2; }
@@ -323,7 +362,7 @@ int main(int argc, char** argv)
       size_t h = cs.find('#');
       XLP x = xlp_parse(cs.substr(0, h));
       Cfg3 cf{g_defaultMask, 1, 2, 1};
-      sscanf(cs.c_str() + h + 1, "%u,%d,%d,%d", &cf.mask, &cf.simplifier, &cf.scaler, &cf.syncmode);
+      sscanf(cs.c_str() + h + 1, "%u,%d,%d,%d,%d", &cf.mask, &cf.simplifier, &cf.scaler, &cf.syncmode, &cf.resolves);
       mallopt(M_PERTURB, 85);
       return replay_case([&](Ctx & c) { run_lp(x, {cf}, c, false); });
    }
@@ -370,6 +409,27 @@ int main(int argc, char** argv)
       return run_lp(x, cfgs, c, true);
    }, [&](uint64_t idx, uint64_t sub) { XLP x; lpAt(idx, x); return xlp_str(x) + "#" + cfg_code(cfgs[sub < cfgs.size() ? sub : 0]); }, o,
    [&](uint64_t, uint64_t sub) { return "@" + cfg_str(cfgs[sub < cfgs.size() ? sub : 0]); });
+   // repeated optimize() on the same object: the second and third verdict must be as exact as the first (state left behind by the transformations of the first solve)
+   std::vector<Cfg3> cfgsR;
+   for(int simp = 1; simp >= 0; --simp) for(int rs = 1; rs <= 2; ++rs)
+   {
+      cfgsR.push_back({g_defaultMask, simp, 2, 1, rs});
+      for(int a = 0; a < 13; ++a) cfgsR.push_back({g_defaultMask ^ (1u << a), simp, 2, 1, rs});
+   }
+   uint64_t strideR = stride * 3;
+   auto lpAtR = [&](uint64_t k, XLP & x) -> bool
+   {
+      uint64_t raw = k * strideR + 1, lim = std::min<uint64_t>(raw + strideR, total);
+      while(raw < lim && !getLP(raw, x)) ++raw;
+      return raw < lim;
+   };
+   rep.phase("rational LPs x <=1 deviation x simplifier x {2, 3} optimize() calls on one object", total / strideR, [&](uint64_t idx, int, Ctx & c) -> uint64_t
+   {
+      XLP x;
+      if(!lpAtR(idx, x)) return 0;
+      return run_lp(x, cfgsR, c, false);
+   }, [&](uint64_t idx, uint64_t sub) { XLP x; lpAtR(idx, x); return xlp_str(x) + "#" + cfg_code(cfgsR[sub < cfgsR.size() ? sub : 0]); }, o,
+   [&](uint64_t, uint64_t sub) { return "@" + cfg_str(cfgsR[sub < cfgsR.size() ? sub : 0]); });
    if(thorough)
    {
       // the complete 2^13 product on a curated set (every 150th LP of the first family), simplifier on/off
@@ -397,7 +457,7 @@ int main(int argc, char** argv)
    }
    rep.evaluations = rep.all.counters["exact_solves"];
    rep.rule = "case = (rational tiny LP with non-dyadic data or lifting-range data, exact-solver option vector): every stride-th symmetry-reduced LP of four product families x all vectors with <= 2 "
-              "deviations among the 13 exact-solver booleans x simplifier on/off (+ scaler off, manual sync); thorough adds the complete 2^13 product on a curated subset. Every returned vector and value is "
+              "deviations among the 13 exact-solver booleans x simplifier on/off (+ scaler off, manual sync); a second phase calls optimize() two and three times on one object (<= 1 deviation) and judges every verdict, and the stored rational LP is compared with the entered LP after every solve; thorough adds the complete 2^13 product on a curated subset. Every returned vector and value is "
               "checked with zero tolerance; non-trivial = distinct LPs solved";
    rep.assumptions = {"exact oracle: basis enumeration over GMP rationals for the true status and optimum", "option vectors with rational reconstruction AND rational factorization both off run under REFLIMIT=50 and only a returned verdict is judged"};
    rep.extra["option_vectors"] = std::to_string(cfgs.size());
